@@ -27,39 +27,6 @@ def tysAst : Tys → ATys
 end
 
 mutual
-theorem fmtType_plain (st : FState) : (t : Ty) → plainTy t = true → fmtType st t = (st, tyAst t)
-  | .prim id, _ => by simp [fmtType, tyAst]
-  | .record fs, h => by
-    simp only [plainTy] at h
-    simp [fmtType, tyAst, fmtTypeFields_plain st fs h]
-  | .array t, h => by
-    simp only [plainTy] at h
-    simp [fmtType, tyAst, fmtType_plain st t h]
-  | .set t, h => by
-    simp only [plainTy] at h
-    simp [fmtType, tyAst, fmtType_plain st t h]
-  | .map k v, h => by
-    simp only [plainTy, Bool.and_eq_true] at h
-    simp [fmtType, tyAst, fmtType_plain st k h.1, fmtType_plain st v h.2]
-  | .union ts, h => by
-    simp only [plainTy] at h
-    simp [fmtType, tyAst, fmtTypeTys_plain st ts h]
-  | .enum syms, _ => by simp [fmtType, tyAst]
-  | .error t, h => by simp [plainTy] at h
-  | .named n t, h => by simp [plainTy] at h
-theorem fmtTypeFields_plain (st : FState) : (fs : Fields) → plainFields fs = true → fmtTypeFields st fs = (st, fieldsAst fs)
-  | .nil, _ => by simp [fmtTypeFields, fieldsAst]
-  | .cons n t r, h => by
-    simp only [plainFields, Bool.and_eq_true] at h
-    simp [fmtTypeFields, fieldsAst, fmtType_plain st t h.1.1, fmtTypeFields_plain st r h.2]
-theorem fmtTypeTys_plain (st : FState) : (ts : Tys) → plainTys ts = true → fmtTypeTys st ts = (st, tysAst ts)
-  | .nil, _ => by simp [fmtTypeTys, tysAst]
-  | .cons t r, h => by
-    simp only [plainTys, Bool.and_eq_true] at h
-    simp [fmtTypeTys, tysAst, fmtType_plain st t h.1, fmtTypeTys_plain st r h.2]
-end
-
-mutual
 theorem canonType_plain (d : List (Name × Ty)) : (t : Ty) → plainTy t = true → canonType d t = (d, tyAst t)
   | .prim id, _ => by simp [canonType, tyAst]
   | .record fs, h => by
@@ -78,7 +45,9 @@ theorem canonType_plain (d : List (Name × Ty)) : (t : Ty) → plainTy t = true 
     simp only [plainTy] at h
     simp [canonType, tyAst, canonTys_plain d ts h]
   | .enum syms, _ => by simp [canonType, tyAst]
-  | .error t, h => by simp [plainTy] at h
+  | .error t, h => by
+    simp only [plainTy] at h
+    simp [canonType, tyAst, canonType_plain d t h]
   | .named n t, h => by simp [plainTy] at h
 theorem canonFields_plain (d : List (Name × Ty)) : (fs : Fields) → plainFields fs = true → canonFields d fs = (d, fieldsAst fs)
   | .nil, _ => by simp [canonFields, fieldsAst]
@@ -91,6 +60,42 @@ theorem canonTys_plain (d : List (Name × Ty)) : (ts : Tys) → plainTys ts = tr
     simp only [plainTys, Bool.and_eq_true] at h
     simp [canonTys, tysAst, canonType_plain d t h.1, canonTys_plain d r h.2]
 end
+
+mutual
+theorem fmtType_plain (st : FState) : (t : Ty) → plainTy t = true → fmtType st t = (st, tyAst t)
+  | .prim id, _ => by simp [fmtType, tyAst]
+  | .record fs, h => by
+    simp only [plainTy] at h
+    simp [fmtType, tyAst, fmtTypeFields_plain st fs h]
+  | .array t, h => by
+    simp only [plainTy] at h
+    simp [fmtType, tyAst, fmtType_plain st t h]
+  | .set t, h => by
+    simp only [plainTy] at h
+    simp [fmtType, tyAst, fmtType_plain st t h]
+  | .map k v, h => by
+    simp only [plainTy, Bool.and_eq_true] at h
+    simp [fmtType, tyAst, fmtType_plain st k h.1, fmtType_plain st v h.2]
+  | .union ts, h => by
+    simp only [plainTy] at h
+    simp [fmtType, tyAst, fmtTypeTys_plain st ts h]
+  | .enum syms, _ => by simp [fmtType, tyAst]
+  | .error t, h => by
+    simp only [plainTy] at h
+    simp [fmtType, tyAst, canonType_plain [] t h]
+  | .named n t, h => by simp [plainTy] at h
+theorem fmtTypeFields_plain (st : FState) : (fs : Fields) → plainFields fs = true → fmtTypeFields st fs = (st, fieldsAst fs)
+  | .nil, _ => by simp [fmtTypeFields, fieldsAst]
+  | .cons n t r, h => by
+    simp only [plainFields, Bool.and_eq_true] at h
+    simp [fmtTypeFields, fieldsAst, fmtType_plain st t h.1.1, fmtTypeFields_plain st r h.2]
+theorem fmtTypeTys_plain (st : FState) : (ts : Tys) → plainTys ts = true → fmtTypeTys st ts = (st, tysAst ts)
+  | .nil, _ => by simp [fmtTypeTys, tysAst]
+  | .cons t r, h => by
+    simp only [plainTys, Bool.and_eq_true] at h
+    simp [fmtTypeTys, tysAst, fmtType_plain st t h.1, fmtTypeTys_plain st r h.2]
+end
+
 
 theorem lookup_primName (id : Nat) (h : validPrim id = true) : lookupPrimitive (primName id) = some id := by
   have key : ∀ p ∈ C02.primitiveName, lookupPrimitive (ascii p.2) = some p.1 ∧
@@ -146,7 +151,10 @@ theorem convertType_plain (a : AState) : (t : Ty) → plainTy t = true → wfTy 
   | .enum syms, _, w => by
     simp only [wfTy, Bool.and_eq_true, Bool.not_eq_true'] at w
     simp [convertType, tyAst, w.1]
-  | .error t, h, _ => by simp [plainTy] at h
+  | .error t, h, w => by
+    simp only [plainTy] at h
+    simp only [wfTy] at w
+    simp [convertType, tyAst, convertType_plain a t h w, bind, Except.bind, pure, Except.pure]
   | .named n t, h, _ => by simp [plainTy] at h
 theorem convertTypeFields_plain (a : AState) : (fs : Fields) → plainFields fs = true → wfFields fs = true →
     convertTypeFields a (fieldsAst fs) = .ok (a, fs)
